@@ -170,3 +170,22 @@ package rules
 //@   ensures c08Mark & r.markThisBlockPass == 0
 //@   loop 1 invariant c08Fire && c08Same(r) && r.UsingMatchBlocks && r.doneFirstPositiveMatchBlock == old(r.doneFirstPositiveMatchBlock)
 //@   loop 1 invariant c08All == ((old(r.UsingMatchBlocks) ? old(c08All) : true) && !c08Blk) && ((c08Mark & r.markAllBlocksPass != 0) == c08All) && (c08Mark & r.markThisBlockPass == 0)
+
+//@ -- ---------------------------------------------------------------- C08: CIDR lists per IP version
+//@ -- filterNets keeps exactly the CIDRs of the wanted IP version; "filtered all" means the list was non-empty and
+//@ -- nothing of the wanted version was left; a negated catch-all CIDR of the wanted version drops the whole rule.
+//@ spec func netWanted(n string, ipVersion uint8) bool = strContains(n, ":") == (ipVersion == 6)
+//@ spec func netCatchAll(n string, ipVersion uint8) bool = (ipVersion == 4 && n == "0.0.0.0/0") || (ipVersion == 6 && n == "::/0")
+//@ func isCatchAllCIDR
+//@   property C08
+//@   ensures res == netCatchAll(cidr, ipVersion)
+//@   assigns nothing
+//@ func filterNets
+//@   property C08
+//@   option safety off
+//@   ensures len(mixedCIDRs) == 0 ==> len(res0) == 0 && !res1
+//@   ensures forall i int :: 0 <= i && i < len(res0) ==> netWanted(res0[i], ipVersion) && !(isNegated && netCatchAll(res0[i], ipVersion))
+//@   ensures len(mixedCIDRs) > 0 ==> (res1 ==> len(res0) == 0)
+//@   ensures len(mixedCIDRs) > 0 && !res1 ==> len(res0) > 0
+//@   loop 1 invariant -1 <= rangeindex && rangeindex < len(mixedCIDRs) && len(mixedCIDRs) > 0 && wantV6 == (ipVersion == 6) && filteredAll == (len(filtered) == 0) && len(filtered) <= cap(filtered) && (len(filtered) > 0 ==> fresh(filtered))
+//@   loop 1 invariant forall i int :: 0 <= i && i < len(filtered) ==> netWanted(filtered[i], ipVersion) && !(isNegated && netCatchAll(filtered[i], ipVersion))
